@@ -325,4 +325,14 @@ def canon(x):
         return ('dict', tuple((canon(k), canon(v)) for k, v in x.items()))
     if isinstance(x, (list, tuple)):
         return (type(x).__name__, tuple(canon(v) for v in x))
+    if isinstance(x, (bytes, bytearray)) and len(x) > 256:
+        return (type(x).__name__, len(x), hashlib.sha1(x).hexdigest())
     return (type(x).__name__, repr(x))
+
+
+def brief(x):
+    """contents in messages: large byte strings are named by length and digest"""
+    if isinstance(x, (bytes, bytearray)) and len(x) > 64:
+        return f'<{len(x)} bytes sha1={hashlib.sha1(x).hexdigest()[:12]}>'
+    r = repr(x)
+    return r if len(r) <= 200 else r[:200] + '...'
